@@ -42,7 +42,7 @@ var (
 	flagMaxDepth = flag.Int("maxdepth", 0, "override the history depth")
 )
 
-func itoa(n int64) string { return strconv.FormatInt(n, 10) }
+func itoa(n int64) string   { return strconv.FormatInt(n, 10) }
 func quote(s string) string { return strconv.Quote(s) }
 func quoteList(l []string) string {
 	q := make([]string, len(l))
@@ -448,6 +448,13 @@ func safeDump() (s string) {
 
 func main() {
 	vlib.Main("C04", "model_checking", func(c *vlib.Ctx) {
+		// the setter-vs-getter interleaving clause is decided by the engine-S part
+		if c.ReplayPart(`"c04s/`, "/verif/build/c04s") {
+			return
+		}
+		if !c.IsShard() {
+			defer c.RunPart("/verif/build/c04s")
+		}
 		log.SetLogLevel(log.CriticalLevel) // the package logs an error for every wrong-type/unknown getter; logging is not started
 		if c.Replay != "" {
 			replay(c)
@@ -480,16 +487,16 @@ func parent(c *vlib.Ctx) {
 	c.SetBudget(vlib.Pick(c, 5*time.Minute, 28*time.Minute))
 	nCar := len(sweepCarriers(nil)) + 1
 	c.Rule(fmt.Sprintf("(1) value sweep: %d cases = 3 base states (empty; every option set in both layers with release level experimental; user layer set, half the default layer, release level stable) x %d keys (%d registered options of all four types with/without regex, allowed values, validation function, release level; one unknown key) x %d carrier values (all Go integer types, float32/64 integral, non-integral, NaN, Inf, 10^6 and +-2^53 edges, strings, bools, []string, []interface{}, typed nil list, list with a non-string, nil, []byte, map, struct, pointer, json.Number) x {SetConfigOption, SetDefaultConfigOption, ReplaceConfig, ReplaceDefaultConfig, the same through MapToJSON->JSONToMap, Option.ValidateValue, ValidateConfig, NewPerspective}, each state-changing case followed by save / new process state / loadConfig; "+
-			"(2) BFS over histories to depth %d over %d operations on %d options + core/releaseLevel: Set/SetDefault with {valid native, valid second (JSON carrier or boundary), invalid, nil} per option, release level {beta, experimental, stable, bogus, nil} in both layers, Replace/ReplaceDefault with all maps of <= 2 entries over a pool of 11 valid/invalid/unknown entries, SaveConfig, loadConfig, loadConfig(strict), save+wipe+load, save+restart+load, restart+load; every history is replayed on a reset package; states de-duplicated on (private user/default layers, release-level gate, config.json bytes, model); the deepest level is checked but its states are not stored. "+
-			"After every step: plain and Concurrent getters created after the step, before the history and (last step) never called before, wrong-type and unknown-name getters, Option.UserValue/IsSetByUser, GetActiveConfigValues, four Perspectives. "+
-			"non-trivial = distinct states in which some option holds different values in user and default layer or a release-level-gated option has a user value",
-			len(cases), len(allSpecs())+3, len(allSpecs())+2, nCar, maxDepth, len(ops), len(bfsSpecs)))
-		c.Assume("option keys are prefix-free at '/' boundaries (the hierarchical file format cannot hold a and a/b together)")
-		c.Assume("callers do not modify a slice after handing it to a setter (the package stores it without copying) and do not modify slices returned by getters")
-		c.Assume("uint64 and json.Number carriers, and a nil entry in a replace map, may be refused or accepted (if accepted the value must be the integer / the option must be unset); whether unknown keys in a replace map are reported is not asserted")
-		c.Assume("I/O failures of config.json are outside the model; loadConfig without a file must leave everything unchanged")
-		c.Assume("Perspective getters: the perspective's validated entry if the option's release level is enabled by the global effective release-level setting, otherwise not available")
-		c.Assume("the setter-vs-getter interleaving clause (every getter call that begins after the operation returned, from many goroutines) is decided by engine S, not here; here getters run sequentially after each operation")
+		"(2) BFS over histories to depth %d over %d operations on %d options + core/releaseLevel: Set/SetDefault with {valid native, valid second (JSON carrier or boundary), invalid, nil} per option, release level {beta, experimental, stable, bogus, nil} in both layers, Replace/ReplaceDefault with all maps of <= 2 entries over a pool of 11 valid/invalid/unknown entries, SaveConfig, loadConfig, loadConfig(strict), save+wipe+load, save+restart+load, restart+load; every history is replayed on a reset package; states de-duplicated on (private user/default layers, release-level gate, config.json bytes, model); the deepest level is checked but its states are not stored. "+
+		"After every step: plain and Concurrent getters created after the step, before the history and (last step) never called before, wrong-type and unknown-name getters, Option.UserValue/IsSetByUser, GetActiveConfigValues, four Perspectives. "+
+		"non-trivial = distinct states in which some option holds different values in user and default layer or a release-level-gated option has a user value",
+		len(cases), len(allSpecs())+3, len(allSpecs())+2, nCar, maxDepth, len(ops), len(bfsSpecs)))
+	c.Assume("option keys are prefix-free at '/' boundaries (the hierarchical file format cannot hold a and a/b together)")
+	c.Assume("callers do not modify a slice after handing it to a setter (the package stores it without copying) and do not modify slices returned by getters")
+	c.Assume("uint64 and json.Number carriers, and a nil entry in a replace map, may be refused or accepted (if accepted the value must be the integer / the option must be unset); whether unknown keys in a replace map are reported is not asserted")
+	c.Assume("I/O failures of config.json are outside the model; loadConfig without a file must leave everything unchanged")
+	c.Assume("Perspective getters: the perspective's validated entry if the option's release level is enabled by the global effective release-level setting, otherwise not available")
+	c.Assume("the setter-vs-getter interleaving clause (every getter call that begins after the operation returned, from many goroutines) is decided by engine S, not here; here getters run sequentially after each operation")
 
 	work, err := os.MkdirTemp("", "verif-c04-work-")
 	if err != nil {
